@@ -199,6 +199,9 @@ func (o *authOracle) c10(e *Env, si *StepInfo) {
 			}
 		}
 		for _, ed := range si.Edges {
+			if ed.From == modAddr("market") && ed.To == modAddr("node") && debtOf(prev, signer).Sub(debtOf(cur, signer)).GTE(ed.Amt) {
+				continue // income repaying the claimer's own collateral debt
+			}
 			if (ed.From == modAddr("node") || ed.From == modAddr("market")) && ed.To != signer && !ed.Amt.IsZero() {
 				o.once(e, "C10", "C10.node", lab, "payout-to-other", ed.To, fmt.Sprintf("%s by %s paid %s to %s", si.Op.K, si.Built.Signer.Name, ed.Amt, fmtAddr(ed.To)))
 			}
